@@ -1,7 +1,7 @@
 /-
   MellonDriver.Validate — ops of property C20:
-    xfrt, vnn, vfoi, vpf, vfl, vpi, vbool, vstr, vfoin, varr, v1d, ensure2d, predmean, predcov,
-    gpfs, ctor, mle.
+    xfrt, vnn, vfoi, vpf, vfl, vpi, vk, vbool, vnorm, vstr, vfoin, varr, v1d, vdist, ensure2d, predmean,
+    predcov, gpfs, ctor, mle.
   Python values travel in a prefix token grammar (see `pPy`); floats as IEEE-754 bit patterns.
 -/
 import MellonDriver.Core
@@ -205,7 +205,38 @@ def handleValidate : Handler := fun op =>
     return outOutcome outPy (validatePositiveFloat (← pPy) o ai)
   | "vfl" => some do
     let o ← pBool
-    return outOutcome outPy (validateFloat (← pPy) o)
+    let ai ← pBool
+    return outOutcome outPy (validateFloat (← pPy) o ai)
+  | "vk" => some do
+    return outOutcome outPy (validateK (← pPy))
+  | "vnorm" => some do
+    -- N | B T/F | NB T/F (NumPy / JAX boolean scalar) | D | S | Z <len> | X (other scalar)
+    let t ← tok
+    let v : NormVal ← (match t with
+      | "N" => pure NormVal.none
+      | "B" => do pure (NormVal.bool (← pBool))
+      | "NB" => do pure (NormVal.npbool (← pBool))
+      | "D" => pure NormVal.dict
+      | "S" => pure NormVal.str
+      | "Z" => do pure (NormVal.sized (← pNat))
+      | "X" => pure NormVal.scalar
+      | _ => throw s!"normval? {t}")
+    return outOutcome (fun r => match r with
+      | .none => "N"
+      | .bool b => if b then "B T" else "B F"
+      | .npbool b => if b then "NB T" else "NB F"
+      | .dict => "D"
+      | .str => "S"
+      | .sized n => s!"Z {n}"
+      | .scalar => "X") (validateNormalize v)
+  | "vdist" => some do
+    -- k-NN matrix: <rows> <cols> <rows*cols floats>
+    let r ← pNat
+    let c ← pNat
+    let mut rows : List (List XF) := []
+    for _ in [0:r] do
+      rows := (← pXFs c) :: rows
+    return outOutcome (fun ys => " ".intercalate (toString ys.length :: ys.map outXF)) (sanitiseDistances rows.reverse)
   | "vpi" => some do
     let o ← pBool
     return outOutcome outPy (validatePositiveInt (← pPy) o)
@@ -218,7 +249,8 @@ def handleValidate : Handler := fun op =>
   | "vfoin" => some do
     let o ← pBool
     let pos ← pBool
-    return outOutcome outPy (validateFloatOrIterable (← pPy) o pos)
+    let ai ← pBool
+    return outOutcome outPy (validateFloatOrIterable (← pPy) o pos ai)
   | "varr" => some do
     let o ← pBool
     let nd ← pOptNats
